@@ -237,15 +237,28 @@ func ruleC02MetaSymmetry(r *Run, p *Program, rule string) {
 	// datalog.close writes seg.meta of the segment it iterates; openSegment reads into the segment's meta
 	if f := p.Fn("(*pogreb.datalog).close"); r.anchor(rule, "(*pogreb.datalog).close", f != nil) {
 		okv := false
-		instrsOf(f, func(in ssa.Instruction) {
-			c, ok := in.(*ssa.Call)
-			if !ok || calleeKey(&c.Call) != "pogreb.writeGobFile" {
-				return
-			}
-			ap := accessPath(nil, c.Call.Args[2])
-			np := accessPath(nil, strip(c.Call.Args[1]).(*ssa.BinOp).X)
-			okv = strings.HasSuffix(ap.Chain, ".meta") && strings.HasSuffix(np.Chain, ".name") && ap.Root == np.Root
-		})
+		for _, df := range deepFuncs(p, f) {
+			instrsOf(df, func(in ssa.Instruction) {
+				c, ok := in.(*ssa.Call)
+				if !ok || calleeKey(&c.Call) != "pogreb.writeGobFile" {
+					return
+				}
+				bo, ok := strip(c.Call.Args[1]).(*ssa.BinOp)
+				if !ok {
+					for _, s := range sources(c.Call.Args[1]) {
+						if b2, ok2 := s.(*ssa.BinOp); ok2 {
+							bo, ok = b2, true
+						}
+					}
+				}
+				if !ok {
+					return
+				}
+				ap := accessPath(nil, c.Call.Args[2])
+				np := accessPath(nil, bo.X)
+				okv = strings.HasSuffix(ap.Chain, ".meta") && strings.HasSuffix(np.Chain, ".name") && ap.Root == np.Root
+			})
+		}
 		r.check(okv, rule, "(*pogreb.datalog).close:meta-of-segment", p.Pos(f.Pos()), "each segment's own meta is written under that segment's name + .pmt", "datalog.close does not write each segment's own metadata under that segment's name")
 	}
 }
@@ -487,20 +500,20 @@ var narrowingTable = map[string]string{
 	"(*pogreb.DB).del$1:uint16(len(captured:[]byte))":       "comparison idiom, see Get",
 	"(*pogreb.DB).Put:uint16(len(param:[]byte))":            "guarded: Put returns errKeyTooLarge when len(key) > MaxKeyLength (<= MaxUint16) before this point [checked by C16.reject-before-effect]",
 	"(*pogreb.DB).Put:uint32(len(param:[]byte))":            "guarded: Put returns errValueTooLarge when len(value) > MaxValueLength (< 2^31) before this point",
-	"(*pogreb.DB).recover:uint16(len(pogreb.record.key))":   "bounded source: record.key is data[6:6+keySize] with keySize decoded from 16 bits",
-	"(*pogreb.DB).recover:uint32(len(pogreb.record.value))": "bounded source: record.value has a length decoded from 31 bits",
-	"(*pogreb.DB).recover:uint32(len(pogreb.record.data))":  "bounded source: record.data is 10+K+V with K<2^16, V<2^31",
+	"*:uint16(len(pogreb.record.key))":   "bounded source: record.key is data[6:6+keySize] with keySize decoded from 16 bits",
+	"*:uint32(len(pogreb.record.value))": "bounded source: record.value has a length decoded from 31 bits",
+	"*:uint32(len(pogreb.record.data))":  "bounded source: record.data is 10+K+V with K<2^16, V<2^31",
 	"(*pogreb.DB).pickForCompaction:uint32(pogreb.file.size)": "segment size is bounded by maxSegmentSize (uint32) through the guard in writeRecord",
 	"(*pogreb.datalog).del:uint32(len(pogreb.encodeDeleteRecord()))": "delete record is 10+K bytes, K <= 65535",
 	"(*pogreb.datalog).writeRecord:uint32((*pogreb.file).append#0)":   "guarded: the append offset is < maxSegmentSize (uint32) by the size test at the top of writeRecord",
 	"(*pogreb.datalog).nextWritableSegmentID:uint16(phi+const)":      "range index over [maxSegments]*segment with maxSegments = MaxInt16",
-	"pogreb.parseSegmentName:uint16(strconv.ParseUint#0)":             "ParseUint(.., 10, 16) returns a value that fits 16 bits",
 	"pogreb.encodeRecord:uint32(len(param:[]byte)+len(param:[]byte))": "callers bound key (<=65535) and value (<2^31) lengths: Put's checks; delete records carry no value; recovery/compaction re-encode nothing",
 	"pogreb.encodeRecord:uint16(len(param:[]byte))":                   "see above: key length bounded by Put / by the stored key matched in Delete",
 	"pogreb.encodeRecord:uint32(len(param:[]byte))":                   "see above: value length bounded by Put",
-	"(pogreb.bucket).MarshalBinary:uint64(pogreb.bucket.next)":        "same-width reinterpretation of a non-negative file offset",
-	"(*pogreb.bucket).UnmarshalBinary:int64((encoding/binary.littleEndian).Uint64())": "same-width reinterpretation of a stored file offset",
-	"(*pogreb.recoveryIterator).next:int64(pogreb.segmentIterator.offset)":           "widening (uint32 -> int64)",
+	"*:uint64(pogreb.bucket.next)":                       "same-width reinterpretation of a non-negative file offset",
+	"*:int64((encoding/binary.littleEndian).Uint64())":   "same-width reinterpretation of a stored file offset",
+	"*:int64(pogreb.segmentIterator.offset)":             "widening (uint32 -> int64)",
+	"*:uint16(strconv.ParseUint#0)":                      "accepted only for ParseUint(.., 10, 16): checked by C18.names",
 }
 
 func ruleC16Narrowing(r *Run, p *Program, rule string) {
@@ -539,11 +552,21 @@ func ruleC16Narrowing(r *Run, p *Program, rule string) {
 				r.ok(rule, key, p.Pos(cv.Pos()), "reviewed: "+why, false)
 				return
 			}
+			if why, ok := narrowingTable["*:"+typeName(cv.Type())+"("+canonSrc(cv.X)+")"]; ok {
+				r.ok(rule, key, p.Pos(cv.Pos()), "reviewed (by source): "+why, false)
+				return
+			}
+			// comparison idiom inside any key callback: uint16(len(sought key)) compared with slot.keySize, backed by the
+			// full key comparison that C01/C16.match-equal demands of every callback
+			if typeName(cv.Type()) == "uint16" && strings.HasPrefix(canonSrc(cv.X), "len(") && onlyComparedWithKeySize(cv, 0) {
+				r.ok(rule, key, p.Pos(cv.Pos()), "comparison idiom in a key callback: a truncated length can only cause a false length match, rejected by the full key comparison", true)
+				return
+			}
 			// int -> int64 style conversions are widening on every platform; uint32(int) etc. need a reason
 			r.bad(rule, key, p.Pos(cv.Pos()), fmt.Sprintf("narrowing or sign-changing conversion %s(%s) of a non-constant (%d->%d bits) is not in the reviewed table: a length or offset may be silently truncated into an on-disk field", typeName(cv.Type()), canonSrc(cv.X), sb, tb))
 		})
 	}
-	r.universe(rule, n, 18)
+	r.universe(rule, n, 14)
 	// arithmetic carried out in a narrow type
 	na := 0
 	for _, f := range p.ModuleFuncs("") {
@@ -848,4 +871,79 @@ func ruleC17(r *Run, p *Program, rule string) {
 	if n == 0 {
 		r.ok(rule+".fs-oblivious", "pogreb", "", "no type assertion / type switch on fs.File, fs.FileSystem or fs.LockFile in package pogreb", true)
 	}
+}
+
+// onlyComparedWithKeySize: every use of v (directly, through a local cell, or captured by a closure) is an (in)equality
+// comparison with slot.keySize.
+func onlyComparedWithKeySize(v ssa.Value, d int) bool {
+	refs := v.Referrers()
+	if refs == nil || len(*refs) == 0 || d > 4 {
+		return false
+	}
+	for _, rf := range *refs {
+		switch x := rf.(type) {
+		case *ssa.BinOp:
+			if x.Op != token.EQL && x.Op != token.NEQ {
+				return false
+			}
+			other := x.Y
+			if x.Y == v {
+				other = x.X
+			}
+			if !isSlotFieldLoad(other, "keySize") {
+				return false
+			}
+		case *ssa.MakeClosure:
+			fn, ok := x.Fn.(*ssa.Function)
+			if !ok {
+				return false
+			}
+			for i, b := range x.Bindings {
+				if b == v && i < len(fn.FreeVars) {
+					if !onlyComparedWithKeySize(fn.FreeVars[i], d+1) {
+						return false
+					}
+				}
+			}
+		case *ssa.Store:
+			// stored into a captured cell: all loads of the cell must satisfy the same
+			if x.Val != v {
+				return false
+			}
+			cell, ok := x.Addr.(*ssa.Alloc)
+			if !ok {
+				return false
+			}
+			for _, cr := range *cell.Referrers() {
+				switch y := cr.(type) {
+				case *ssa.Store:
+				case *ssa.UnOp:
+					if !onlyComparedWithKeySize(y, d+1) {
+						return false
+					}
+				case *ssa.MakeClosure:
+					fn, ok := y.Fn.(*ssa.Function)
+					if !ok {
+						return false
+					}
+					for i, b := range y.Bindings {
+						if b == ssa.Value(cell) && i < len(fn.FreeVars) {
+							for _, fr := range *fn.FreeVars[i].Referrers() {
+								ld, ok := fr.(*ssa.UnOp)
+								if !ok || !onlyComparedWithKeySize(ld, d+1) {
+									return false
+								}
+							}
+						}
+					}
+				default:
+					return false
+				}
+			}
+		case *ssa.DebugRef:
+		default:
+			return false
+		}
+	}
+	return true
 }
